@@ -4,6 +4,8 @@ import (
 	"fmt"
 	"go/token"
 	"go/types"
+	"regexp"
+	"sort"
 	"strings"
 
 	"golang.org/x/tools/go/ssa"
@@ -552,7 +554,132 @@ func checkRegisteredValueQuoted(c *Ctx, p *core.Prog) {
 		}
 	}
 	c.R.RequireMin("R13.1", "compile sites for registered values", nCompile, 2)
+	// R13.18: the expression a value is searched with is compiled from that value, in the call that registers it: the regexp
+	// stored into a knownValue is the result of a Compile in the same function (or of a helper of the package that compiles its
+	// string parameter) - not something loaded from a cache or a package-level table, which is keyed by less than the text (two
+	// classifiers that register different texts under one key then search for each other's text).
+	{
+		nR, bad := 0, ""
+		for _, lit := range structLits(pkgFuncs(p, scPkg), "stringclassifier.knownValue") {
+			for fname, v := range lit.fields {
+				if v == nil || !strings.Contains(v.Type().String(), "regexp.Regexp") {
+					continue
+				}
+				nR++
+				var walk func(v ssa.Value, d int) string
+				walk = func(v ssa.Value, d int) string {
+					v = core.Unspill(v)
+					if d > 5 {
+						return "a value that could not be traced"
+					}
+					switch x := v.(type) {
+					case *ssa.Extract:
+						return walk(x.Tuple, d+1)
+					case *ssa.Call:
+						n := core.StaticCalleeName(x.Common())
+						if n == "regexp.Compile" || n == "regexp.MustCompile" {
+							return ""
+						}
+						if g := x.Call.StaticCallee(); g != nil && core.FuncPkgPath(g) == scPkg {
+							for _, call := range core.CallsIn(g) {
+								if n2 := core.StaticCalleeName(call.Common()); n2 == "regexp.Compile" || n2 == "regexp.MustCompile" {
+									return ""
+								}
+							}
+						}
+						return eng.Describe(x)
+					case *ssa.Phi:
+						for _, e := range x.Edges {
+							if w := walk(e, d+1); w != "" {
+								return w
+							}
+						}
+						return ""
+					case *ssa.Parameter:
+						return "" // a helper that is handed the compiled expression by the registering function
+					}
+					return eng.Describe(v)
+				}
+				if w := walk(v, 0); w != "" && bad == "" {
+					bad = "field " + fname + " at " + p.Pos(lit.alloc.Pos()) + " is " + w
+				}
+			}
+		}
+		c.R.Check(bad == "", "R13.18", "the expression stored with a known value is compiled from it in the registering call", scPkg, fmt.Sprintf("%d regexp fields in knownValue literals, each the result of regexp.Compile", nR),
+			bad+": the expression comes from somewhere else than a Compile of this value (a cache keyed by the value's key, say) - a classifier that registers another text under a key seen before searches for the other text, reports 1.0 where its own value does not occur and misses its verbatim copies")
+		c.R.RequireMin("R13.18", "regexp fields in knownValue literals", nR, 1)
+	}
+	checkLoopVarCapture(c, p, append(pkgFuncs(p, scPkg), pkgFuncs(p, core.RootMod)...), "R13.19")
+}
 
+// checkLoopVarCapture: the module declares a Go version before 1.22, so a range or for variable is ONE variable for the whole
+// loop. A function literal that is created inside the loop and kept (stored, appended, started) after the iteration ends
+// must not use such a variable: every literal then sees the value of the last iteration. Decided on the SSA form: a
+// MakeClosure inside a loop binds an Alloc that lies outside the loop and is stored to inside it.
+func checkLoopVarCapture(c *Ctx, p *core.Prog, fns []*ssa.Function, rule string) {
+	nC, bad := 0, ""
+	for _, fn := range fns {
+		for _, b := range fn.Blocks {
+			for _, in := range b.Instrs {
+				mc, ok := in.(*ssa.MakeClosure)
+				if !ok {
+					continue
+				}
+				nC++
+				// loops that contain the closure
+				for h := b; h != nil; h = h.Idom() {
+					isHeader := false
+					for _, pr := range h.Preds {
+						if h.Dominates(pr) {
+							isHeader = true
+						}
+					}
+					if !isHeader {
+						continue
+					}
+					loop := naturalLoop(h)
+					if !loop[b] {
+						continue
+					}
+					for _, bd := range mc.Bindings {
+						al, isAl := bd.(*ssa.Alloc)
+						if !isAl || loop[al.Block()] {
+							continue
+						}
+						storedInLoop := false
+						for _, r := range *al.Referrers() {
+							if st, isSt := r.(*ssa.Store); isSt && st.Addr == ssa.Value(al) && loop[st.Block()] {
+								storedInLoop = true
+							}
+						}
+						if !storedInLoop {
+							continue
+						}
+						// kept beyond the iteration? (anything but an immediate call or a deferred/go call with the loop waiting)
+						kept := false
+						for _, r := range *mc.Referrers() {
+							switch u := r.(type) {
+							case *ssa.Call:
+								if u.Call.Value != ssa.Value(mc) {
+									kept = true // passed as an argument (append, a registration)
+								}
+							case *ssa.Go, *ssa.Defer:
+								// covered by the concurrency rules (R14.14)
+							case *ssa.DebugRef:
+							default:
+								kept = true
+							}
+						}
+						if kept && bad == "" {
+							bad = core.ShortFn(fn) + ": the function literal at " + p.Pos(mc.Pos()) + " uses the loop variable " + al.Comment + " and is kept beyond the iteration"
+						}
+					}
+				}
+			}
+		}
+	}
+	c.R.Check(bad == "", rule, "no function literal that outlives its iteration uses the loop's variable", core.RootMod, fmt.Sprintf("%d function literals examined (the module's Go version gives one variable per loop)", nC),
+		bad+": every literal created by the loop sees the variable's last value - a list of wrapped normalisers applies the last normaliser N times, so registered and unknown texts are normalised differently from what the caller asked for")
 }
 
 func runC16(c *Ctx) {
@@ -877,6 +1004,7 @@ func runC16(c *Ctx) {
 		}
 	}
 	checkCommonWordsGate(c, p)
+	checkV1RegistrationSiblings(c, p)
 	c.R.Check(gt && eq && !other, "R16.1", "WithinConfidenceThreshold is conf > Threshold or |conf - Threshold| < epsilon", p.Pos(wct.Pos()),
 		"predicate body is the disjunction of conf > Threshold and a tiny-epsilon equality", "the threshold predicate accepts confidences below the threshold (or has an unrecognised shape)")
 }
@@ -1458,4 +1586,99 @@ func falseOnlyWhenScanEmpty(g *ssa.Function, idx int, scanName string) bool {
 		}
 	}
 	return n > 0
+}
+
+// checkV1RegistrationSiblings: R16.7, R16.8, R16.9.
+func checkV1RegistrationSiblings(c *Ctx, p *core.Prog) {
+	// R16.7: the two ways to register a value fill a knownValue alike: every field that AddValue sets is set by
+	// AddPrecomputedValue too (which adds the precomputed search set). The License classifier registers its whole corpus through
+	// AddPrecomputedValue - a field only AddValue fills (a cached length, say) is zero for every license of the archive.
+	{
+		fieldsOf := func(name string) (map[string]bool, *ssa.Function) {
+			fn := p.Func(scPkg, name)
+			if fn == nil {
+				return nil, nil
+			}
+			out := map[string]bool{}
+			for _, lit := range structLits(pkgClosure(fn, scPkg), "stringclassifier.knownValue") {
+				for f := range lit.fields {
+					out[f] = true
+				}
+			}
+			return out, fn
+		}
+		av, f1 := fieldsOf("(*Classifier).AddValue")
+		ap, f2 := fieldsOf("(*Classifier).AddPrecomputedValue")
+		if f1 != nil && f2 != nil && len(av) > 0 && len(ap) > 0 {
+			var missing []string
+			for f := range av {
+				if !ap[f] {
+					missing = append(missing, f)
+				}
+			}
+			sort.Strings(missing)
+			c.R.Check(len(missing) == 0, "R16.7", "AddPrecomputedValue fills every field of a known value that AddValue fills", p.Pos(f2.Pos()), fmt.Sprintf("AddValue sets %d fields, AddPrecomputedValue %d", len(av), len(ap)),
+				"AddValue sets "+strings.Join(missing, ", ")+" and AddPrecomputedValue does not: for every license loaded from the archive the field is zero, so whatever is computed from it (a confidence from a cached length) is wrong for the whole corpus while the tests, which use AddValue, pass")
+		}
+	}
+	// R16.8: version numbers tell licenses of one family apart (AFL 1.1 ... 3.0, APSL 1.0/1.1): the expression RemoveNonWords
+	// deletes with matches neither a letter nor a digit. Read from the package initialiser and tried on sample characters.
+	singlePattern := func(name string) ([]string, bool) {
+		g := p.Global(core.RootMod, name)
+		sp := p.SSAPkgs[core.RootMod]
+		if g == nil || sp == nil || sp.Func("init") == nil {
+			return nil, false
+		}
+		for _, b := range sp.Func("init").Blocks {
+			for _, in := range b.Instrs {
+				st, ok := in.(*ssa.Store)
+				if !ok || st.Addr != ssa.Value(g) {
+					continue
+				}
+				if call, isCall := st.Val.(*ssa.Call); isCall && strings.HasPrefix(core.StaticCalleeName(call.Common()), "regexp.") && len(call.Call.Args) == 1 {
+					if pat, isS := core.ConstString(call.Call.Args[0]); isS {
+						return []string{pat}, true
+					}
+				}
+			}
+		}
+		return nil, false
+	}
+	if pats, ok := singlePattern("nonWords"); ok && len(pats) == 1 {
+		re, err := regexp.Compile(pats[0])
+		if err != nil {
+			c.R.Undecided("R16.8", "nonWords pattern", "classifier.go", "the pattern does not compile in the checker: "+err.Error())
+		} else {
+			bad := ""
+			for _, ch := range []string{"0", "1", "7", "9", "a", "Z", "é"} {
+				if re.MatchString(ch) {
+					bad += ch + " "
+				}
+			}
+			c.R.Check(bad == "", "R16.8", "RemoveNonWords keeps letters and digits", "classifier.go", "pattern "+pats[0]+" matches no letter and no digit",
+				"the pattern "+pats[0]+" also deletes "+strings.TrimSpace(bad)+": texts that differ in their version numbers only (the AFL and APSL headers) normalise to the same text, and every one of them is reported under the name that sorts first")
+		}
+	} else {
+		c.R.Info("R16.8", "nonWords pattern", "classifier.go", "not decided: the pattern could not be read from the package initialiser")
+	}
+	// R16.9: every candidate that was scored stays in the queue until the caller takes the best one: inside nearestMatch (and
+	// the tasks it starts) the queue is only pushed to. The queue hands out the best match first, so a Pop that is meant to
+	// cap its size throws the best candidate away.
+	if nm := p.Func(scPkg, "(*Classifier).nearestMatch"); nm != nil {
+		bad := ""
+		nPush := 0
+		for _, f := range core.WithAnon(nm) {
+			for _, call := range core.CallsIn(f) {
+				n := core.StaticCalleeName(call.Common())
+				if strings.HasSuffix(n, "pq.Queue).Push") {
+					nPush++
+				}
+				if (strings.HasSuffix(n, "pq.Queue).Pop") || strings.HasSuffix(n, "pq.Queue).Remove")) && bad == "" {
+					bad = p.Pos(call.Pos())
+				}
+			}
+		}
+		c.R.Check(bad == "", "R16.9", "nearestMatch only adds to its queue of candidates", p.Pos(nm.Pos()), fmt.Sprintf("%d pushes, no Pop or Remove", nPush),
+			"nearestMatch takes an element out of its queue at "+bad+": the queue yields the best match first, so what is removed is the best candidate found so far - the text of a license of the corpus is reported under another license's name")
+	}
 }
